@@ -10,7 +10,8 @@ from fractions import Fraction
 from pv import shim
 from pv import tlc
 
-TESTS_WITH_REF = ('Frequency', 'BlockFrequency', 'Runs', 'LongestRuns', 'Serial', 'ApproximateEntropy', 'RandomWalk', 'NonOverlappingTemplateMatching')
+TESTS_WITH_REF = ('Frequency', 'BlockFrequency', 'Runs', 'LongestRuns', 'Serial', 'ApproximateEntropy', 'RandomWalk', 'NonOverlappingTemplateMatching',
+                  'LinearComplexityScatter')
 
 
 def bits_of(v, n):
@@ -139,6 +140,39 @@ def ref_pvalues(test, b, par=None):
       c = collections.Counter(tuple(b[(i + j) % n] for j in range(m)) for i in range(n))
       return sum(v / n * math.log(v / n) for v in c.values())
     return {'m=%d' % m: igamc(2 ** (m - 1), (2 * n * (math.log(2) - (phi(m) - phi(m + 1)))) / 2) for m in range(2, m_max + 1)}
+  if test == 'LinearComplexityScatter':
+    step = par
+    def bm(seq):
+      # textbook Berlekamp-Massey over GF(2) on a list of bits
+      nbits = len(seq)
+      c, bb = [0] * (nbits + 1), [0] * (nbits + 1)
+      c[0] = bb[0] = 1
+      L, m = 0, -1
+      for i in range(nbits):
+        d = seq[i]
+        for j in range(1, L + 1):
+          d ^= c[j] & seq[i - j]
+        if d:
+          t = c[:]
+          for j in range(nbits - i + m):
+            if bb[j]:
+              c[j + i - m] ^= 1
+          if 2 * L <= i:
+            L, m, bb = i + 1 - L, i, t
+      return L
+    logp = 0
+    for i in range(step):
+      seq = b[i::step]
+      size = len(seq)
+      L = bm(seq)
+      lp = -size if L == 0 else (2 * L - size - 1 if L <= size // 2 else size - 2 * L)
+      logp -= lp
+    mpm = _mp()
+    tosses = logp - 1
+    if tosses < 0:
+      return None
+    pv = mpm.fsum(mpm.binomial(tosses, j) for j in range(0, min(step - 1, tosses) + 1)) / mpm.mpf(2) ** tosses
+    return {'result': float(pv)}
   if test == 'RandomWalk':
     mpm = _mp()
     def Phi(x):
@@ -201,6 +235,8 @@ def int_stats(test, b):
     for x in split(b, M):
       v[min(max(longest(x), lo), hi) - lo] += 1
     return {'m': M, 'bins': v}
+  if test == 'LinearComplexityScatter':
+    return {}
   if test == 'RandomWalk':
     S = [0]
     for v in b:
@@ -213,6 +249,15 @@ def int_stats(test, b):
 
 
 def call_test(ns, test, v, n, par):
+  if test in ('LargeBinaryMatrixRank', 'LinearComplexityScatter'):
+    from paranoid_crypto.lib.randomness_tests import extended_nist_suite as ens
+    if test == 'LargeBinaryMatrixRank':
+      return ens.LargeBinaryMatrixRank(v, n)
+    return ens.LinearComplexityScatter(v, n, par)
+  if test == 'OverlappingTemplateMatching' and isinstance(par, (list, tuple)):
+    return ns.OverlappingTemplateMatching(v, n, par[0], par[1])
+  if test == 'BinaryMatrixRank' and isinstance(par, (list, tuple)):
+    return ns.BinaryMatrixRank(v, n, par[0], par[1], par[2], False)
   fn = getattr(ns, test)
   if test == 'LinearComplexity':
     return fn(v, n, par)
@@ -234,7 +279,7 @@ def in_domain(test, b):
 def stat_record(ns, sid, test, b, par=0, with_ref=True):
   n = len(b)
   v = val(b)
-  args = {'test': test, 'n': n, 'par': par}
+  args = {'test': test, 'n': n, 'par': par if not isinstance(par, (list, tuple)) else 0}
   if n <= 4096:
     args['bits'] = b
   rec = {'sid': sid, 'ev': 'stat', 'args': args, 'obs': {}, 'raised': 'none'}
@@ -247,6 +292,8 @@ def stat_record(ns, sid, test, b, par=0, with_ref=True):
     nan = any(x != x for x in pv.values())
     ok = True
     st = int_stats(test, b)
+    if test == 'LinearComplexityScatter':
+      st = {'sizes': [len(b[i::par]) for i in range(par)]}
     if with_ref and test in TESTS_WITH_REF and in_domain(test, b) and not nan and not (test in ('Serial', 'ApproximateEntropy') and n > 12000):
       mm = par
       if test == 'Serial' and not par:
@@ -330,6 +377,65 @@ def meta_record(ns, sid, test, b, transform, par=0):
   return rec
 
 
+def pure_records(sid, seed):
+  """A sequence of calls with varying optional parameters in one process; every call is then repeated in a fresh (forked) process."""
+  import os, pickle
+  shim.install()
+  from paranoid_crypto.lib.randomness_tests import nist_suite as ns
+  rng = random.Random(seed)
+  n = 20000
+  b = [rng.getrandbits(1) for _ in range(n)]
+  v = val(b)
+  calls = [('OverlappingTemplateMatching', (9, 1032)), ('OverlappingTemplateMatching', (9, 2057)), ('OverlappingTemplateMatching', (4, 64)),
+           ('OverlappingTemplateMatching', (4, 35)), ('OverlappingTemplateMatching', (9, 1032)), ('BinaryMatrixRank', (32, 32, 3)),
+           ('BinaryMatrixRank', (6, 8, 2)), ('BinaryMatrixRank', (16, 32, 3)), ('BinaryMatrixRank', (6, 8, 2)), ('LinearComplexity', 32),
+           ('LinearComplexity', 50), ('Serial', 5), ('Serial', 3), ('ApproximateEntropy', 4), ('ApproximateEntropy', 6),
+           ('LinearComplexityScatter', 7), ('LinearComplexityScatter', 32)]
+  def vec(res):
+    d = {'result': float(res)} if isinstance(res, (int, float)) else {k: float(x) for k, x in res}
+    return [int(round(d[k] * 10 ** 6)) if d[k] == d[k] else -1 for k in sorted(d)]
+  def fresh(test, par):
+    r, w = os.pipe()
+    pid = os.fork()
+    if pid == 0:
+      try:
+        os.close(r)
+        try:
+          out = ('ok', vec(call_test(ns, test, v, n, par)))
+        except Exception as e:  # pylint: disable=broad-except
+          out = ('err', type(e).__name__)
+        with os.fdopen(w, 'wb') as f:
+          pickle.dump(out, f)
+      finally:
+        os._exit(0)
+    os.close(w)
+    with os.fdopen(r, 'rb') as f:
+      data = f.read()
+    os.waitpid(pid, 0)
+    return pickle.loads(data) if data else ('err', 'died')
+  # the fresh-process answers first (this process has not called any test yet), then the history
+  fresh_res = [fresh(t, p_) for t, p_ in calls]
+  recs = []
+  import warnings
+  for i, (t, p_) in enumerate(calls):
+    rec = {'sid': '%s-%d-%s' % (sid, i, t), 'ev': 'pure', 'args': {'test': t, 'n': n, 'par': list(p_) if isinstance(p_, tuple) else [p_]},
+           'obs': {}, 'raised': 'none'}
+    try:
+      with warnings.catch_warnings():
+        warnings.simplefilter('ignore')
+        got = vec(call_test(ns, t, v, n, p_))
+      if fresh_res[i][0] != 'ok':
+        rec['raised'] = str(fresh_res[i][1])
+      else:
+        rec['obs'] = {'pa': got, 'pb': fresh_res[i][1]}
+    except Exception as e:  # pylint: disable=broad-except
+      rec['raised'] = type(e).__name__ if fresh_res[i][0] == 'ok' else 'none'
+      if rec['raised'] == 'none':
+        rec['obs'] = {'pa': [0], 'pb': [0]}
+    recs.append(rec)
+  return recs
+
+
 INVARIANT = {
     'Frequency': ('complement', 'reverse', 'rotate'),
     'BlockFrequency': ('complement',),
@@ -360,6 +466,8 @@ def worker(job):
     from paranoid_crypto.lib.randomness_tests import nist_suite as ns
     if kind == 'stat':
       return stat_record(ns, *args), None
+    if kind == 'pure':
+      return pure_records(*args), None
     return meta_record(ns, *args), None
   except Exception:  # pylint: disable=broad-except
     return None, traceback.format_exc()
@@ -457,6 +565,17 @@ def run(ctx):
         if t in ('Serial', 'ApproximateEntropy') and n > 70000:
           continue
         jobs.append(('stat', ('g-%s-%d-%s' % (t, n, cname), t, b, par, n <= 70000)))
+  # (2b) extended suite: large matrix rank ladder / thresholds, scattered linear complexity for n % step != 0 and == 0
+  for n in [4095, 4096, 16383, 16384, 20000] + ([] if ctx.quick else [65535, 65536, 262144]):
+    b = strings(rng, n)['random']
+    jobs.append(('stat', ('x-LargeBinaryMatrixRank-%d' % n, 'LargeBinaryMatrixRank', b, 0, False)))
+  for n in [1000, 1001, 1024, 1023, 2047, 4096]:
+    for step in (1, 7, 32, 64):
+      for cname in ('random', 'periodic'):
+        jobs.append(('stat', ('x-Scatter-%d-%d-%s' % (n, step, cname), 'LinearComplexityScatter', strings(rng, n)[cname], step, True)))
+  # (2c) optional parameters under call histories vs fresh processes
+  for i in range(2 if ctx.quick else 8):
+    jobs.append(('pure', ('p-%d' % i, ctx.seed * 100 + i)))
   # (3) invariances
   for n in ([1000, 4096, 10007] if ctx.quick else [1000, 4096, 10007, 65536, 100003]):
     for cname, b in strings(rng, n).items():
@@ -464,7 +583,7 @@ def run(ctx):
         for tr in trs:
           jobs.append(('meta', ('m-%s-%s-%d-%s' % (t, tr, n, cname), t, b, tr, 0)))
   if ctx.only_sid:
-    jobs = [j for j in jobs if j[1][0] == ctx.only_sid]
+    jobs = [j for j in jobs if ctx.only_sid.startswith(j[1][0])]
   mpctx = mp.get_context('fork')
   with mpctx.Pool(processes=15) as pool:
     res = list(pool.imap_unordered(worker, jobs, chunksize=20))
@@ -472,7 +591,10 @@ def run(ctx):
   for rec, err in res:
     if err:
       raise tlc.MachineryError('C12 worker crashed:\n%s' % err)
-    recs.append(rec)
+    if isinstance(rec, list):
+      recs += rec
+    else:
+      recs.append(rec)
   recs += [x for x in table_records() if not ctx.only_sid or x['sid'] == ctx.only_sid]
   ctx.replayed = len(recs)
   for x in (recs[3], recs[len(recs) // 2], recs[-1]):
